@@ -332,25 +332,33 @@ Record inst := { i_tpl : string; i_view : list string; i_service : option string
 Definition inst_name (a : rapi) (i : inst) : string :=
   get_filename (i_tpl i) (ctx_of a (i_view i) (i_service i) (i_proto i)).
 
+(* concatenation of results, the first error wins *)
+Fixpoint collect {A} (l : list (res (list A))) : res (list A) :=
+  match l with
+  | [] => Ok []
+  | r :: l' => bind r (fun x => bind (collect l') (fun y => Ok (x ++ y)%list))
+  end.
+
+(* the files one template yields for one view: per proto, per service (gated), or one file.
+   skip = the template was already rendered for sub-package views, so only units of exactly this view are taken *)
+Definition kind_insts (a : rapi) (o : ropts) (tpl : string) (view : list string) (skip : bool) : list inst :=
+  if occurs "%proto" tpl then
+    map (fun u => {| i_tpl := tpl; i_view := view; i_service := None; i_proto := Some (u_module u) |})
+        (filter (fun u => negb (skip && negb (list_eqb String.eqb (u_sub u) view))) (protos_of a view))
+  else if occurs "%service" tpl then
+    map (fun sv => {| i_tpl := tpl; i_view := view; i_service := Some (fst sv); i_proto := None |})
+        (filter (fun sv => negb (skip && negb (list_eqb String.eqb (snd sv) view)) && sgate o tpl) (services_of a view))
+  else [{| i_tpl := tpl; i_view := view; i_service := None; i_proto := None |}].
+
 (* _render_template; the fuel bounds the depth of sub-package views and running out is an error *)
 Fixpoint render (fuel : nat) (a : rapi) (o : ropts) (tpl : string) (view : list string) : res (list inst) :=
   match fuel with
   | O => Err EFuel
   | S f =>
       if negb (ggate o tpl) then Ok [] else
-      let has_sub := occurs "%sub" tpl in
-      let subs := if has_sub then subviews a view else [] in
+      let subs := if occurs "%sub" tpl then subviews a view else [] in
       let skip := match subs with [] => false | _ => true end in
-      bind (fold_right (fun v acc => bind (render f a o tpl v) (fun x => bind acc (fun y => Ok (x ++ y)%list))) (Ok []) subs)
-        (fun below =>
-           if occurs "%proto" tpl then
-             Ok (below ++ map (fun u => {| i_tpl := tpl; i_view := view; i_service := None; i_proto := Some (u_module u) |})
-                              (filter (fun u => negb (skip && negb (list_eqb String.eqb (u_sub u) view))) (protos_of a view)))%list
-           else if occurs "%service" tpl then
-             Ok (below ++ map (fun sv => {| i_tpl := tpl; i_view := view; i_service := Some (fst sv); i_proto := None |})
-                              (filter (fun sv => negb (skip && negb (list_eqb String.eqb (snd sv) view)) && sgate o tpl)
-                                      (services_of a view)))%list
-           else Ok (below ++ [{| i_tpl := tpl; i_view := view; i_service := None; i_proto := None |}])%list)
+      bind (collect (map (render f a o tpl) subs)) (fun below => Ok (below ++ kind_insts a o tpl view skip)%list)
   end.
 
 (* get_response: client templates only (sample templates are handled by samplegen, not modelled), private ones skipped *)
@@ -362,8 +370,7 @@ Definition client_templates (templates : list string) : list string :=
 Definition max_sub_len (a : rapi) : nat := fold_right (fun u m => Nat.max (List.length (u_sub u)) m) 0 (ra_protos a).
 Definition instances (templates : list string) (a : rapi) (o : ropts) : res (list inst) :=
   if existsb (fun t => occurs "%service" t && occurs "%proto" t) (client_templates templates) then Err EServiceAndProto else
-  fold_right (fun t acc => bind (render (2 + max_sub_len a) a o t []) (fun x => bind acc (fun y => Ok (x ++ y)%list)))
-             (Ok []) (client_templates templates).
+  collect (map (fun t => render (2 + max_sub_len a) a o t []) (client_templates templates)).
 (* the names before the emptiness filter of _get_file, de-duplicated as the dict does *)
 Definition candidates (templates : list string) (a : rapi) (o : ropts) : res (list string) :=
   bind (instances templates a o) (fun l => Ok (dedup (map (inst_name a) l))).
